@@ -1,35 +1,28 @@
-(* C15 -- only the Zookeeper lock holder evaluates; pacing.  Statements only; proofs in EvalLoopProofs.v. *)
+(* C15 -- only the Zookeeper lock holder evaluates (and therefore notifies); pacing.  Statements only; proofs in
+   EvalLoopProofs.v.
+
+   READ THIS FIRST.  There are two machines over one state type.
+     step_i  the REAL granularity: lock.Lock() returning and the loop registering in ZookeeperExpired.Wait() are two
+             steps, the condition variable has Go sync.Cond semantics.  On this machine the first sentence of C15 is
+             FALSE (C15_lost_wakeup_refuted, known finding C15:expiry-before-wait) and holds only under the guard
+             window_free = "no expiry is delivered between the lock grant and the Wait" (the _partial / _interleaved
+             theorems of section A).
+     step_s  an IDEALISATION in which grant -> Wait is atomic.  The unguarded theorems of section B
+             (C15_eval_only_with_lock ...) are about this idealised machine, not about the code as it runs.
+   Further limits stated where they apply: the pacing theorems hold exactly for shortest interval * 10^9 < 2^63
+   (C15_pacing_wrap_refuted beyond); "(and therefore notifications)" holds in the form "every notification answers a
+   request ISSUED under the lock", not in the form "notifies only while holding the lock"
+   (C15_notifications_only_while_locked_refuted); one Tick / one Response is one atomic step (overlapping request
+   goroutines after a lost wake-up, and senders blocked on a busy evaluator delivering after the expiry, are below the
+   model's granularity: design_notes/C15.md). *)
 From Coq Require Import ZArith List Bool FMapPositive Permutation.
-From Burrow Require Import EvalLoop EvalLoopProofs.
+From Burrow Require Import Int64 EvalLoop EvalLoopProofs.
 Import ListNotations.
 Open Scope Z_scope.
 
-(* (i) sequential machine, every trace: the monitor (lock object + session) accepts every action -- evaluations only
-   while the lock is held and no expiry was reported since it was granted; the old lock is released only after an
-   expiry and with the connection back; a new lock is requested only after the release. *)
-Theorem C15_eval_only_with_lock : forall mi c0 gs tr,
-  spec_ok (mon0 c0) (snd (run (step_s mi) (init_state c0 gs) tr)) = true.
-Proof. exact eval_only_with_lock. Qed.
-Print Assumptions C15_eval_only_with_lock.
+(* ===== A. The real machine: step_i ================================================================== *)
 
-(* ... in the words of the property: an evaluation is emitted only between a LockOk and the next Expired *)
-Theorem C15_eval_between_lockok_and_expired : forall mi c0 gs tr l1 e acts l2 g t,
-  snd (run (step_s mi) (init_state c0 gs) tr) = l1 ++ (e, acts) :: l2 -> In (Eval g t) acts ->
-  exists la lb, map fst l1 ++ [e] = la ++ LockOk :: lb /\ ~ In Expired lb.
-Proof. exact eval_between_lockok_and_expired. Qed.
-Print Assumptions C15_eval_between_lockok_and_expired.
-
-(* pacing: two evaluations of one group entry are strictly more than minInterval apart, for every clock sequence *)
-Theorem C15_pacing : forall mi c0 gs tr l1 e1 a1 l2 e2 a2 l3 g t1 t2,
-  0 <= mi ->
-  snd (run (step_s mi) (init_state c0 gs) tr) = l1 ++ (e1, a1) :: l2 ++ (e2, a2) :: l3 ->
-  In (Eval g t1) a1 -> In (Eval g t2) a2 ->
-  forallb (keeps g) (map fst l2) = true ->
-  t2 - t1 > mi * ns_per_s.
-Proof. exact pacing. Qed.
-Print Assumptions C15_pacing.
-
-(* (ii) interleaved machine (sync.Cond semantics): the property is FALSE -- DESIGN.md section 5, F8 *)
+(* the real machine (sync.Cond semantics): the first sentence of the property is FALSE -- DESIGN.md section 5, F8 *)
 Theorem C15_lost_wakeup_refuted :
   exists tr, spec_ok (mon0 true) (snd (run (step_i 0) (init_state true one_group) tr)) = false
              /\ window_free 0 (init_state true one_group) tr = false
@@ -46,14 +39,118 @@ Theorem C15_eval_only_with_lock_partial : forall mi c0 gs tr,
 Proof. exact eval_only_with_lock_partial. Qed.
 Print Assumptions C15_eval_only_with_lock_partial.
 
+(* the resume clause on the real machine, under the same guard *)
+Theorem C15_resume_needs_unlock_and_lock_interleaved : forall mi c0 gs tr l1 a0 l2 e acts l3 g t,
+  window_free mi (init_state c0 gs) tr = true ->
+  snd (run (step_i mi) (init_state c0 gs) tr) = l1 ++ (Expired, a0) :: l2 ++ (e, acts) :: l3 ->
+  m_lock (mon_run (mon0 c0) l1) = LHeld ->
+  In (Eval g t) acts ->
+  exists la lb lc, map fst l2 ++ [e] = la ++ UnlockOk :: lb ++ LockOk :: lc.
+Proof. exact resume_needs_unlock_and_lock_interleaved. Qed.
+Print Assumptions C15_resume_needs_unlock_and_lock_interleaved.
+
 Theorem C15_pacing_interleaved : forall mi c0 gs tr l1 e1 a1 l2 e2 a2 l3 g t1 t2,
-  0 <= mi ->
+  0 <= mi <= max_pace_interval ->
   snd (run (step_i mi) (init_state c0 gs) tr) = l1 ++ (e1, a1) :: l2 ++ (e2, a2) :: l3 ->
   In (Eval g t1) a1 -> In (Eval g t2) a2 ->
   forallb (keeps g) (map fst l2) = true ->
   t2 - t1 > mi * ns_per_s.
 Proof. exact pacing_interleaved. Qed.
 Print Assumptions C15_pacing_interleaved.
+
+Theorem C15_pacing_configured_interleaved : forall mods i c0 gs tr l1 e1 a1 l2 e2 a2 l3 g t1 t2,
+  (forall m, In m mods -> 0 <= eff_interval m < max_int64) ->
+  shortest mods i -> i <= max_pace_interval ->
+  snd (run (step_i (configure_min mods)) (init_state c0 gs) tr) = l1 ++ (e1, a1) :: l2 ++ (e2, a2) :: l3 ->
+  In (Eval g t1) a1 -> In (Eval g t2) a2 ->
+  forallb (keeps g) (map fst l2) = true ->
+  t2 - t1 > i * ns_per_s.
+Proof. exact pacing_configured_interleaved. Qed.
+Print Assumptions C15_pacing_configured_interleaved.
+
+(* ===== B. The idealised sequential machine: step_s =================================================== *)
+
+(* IDEALISED sequential machine (grant -> Wait atomic), every trace: the monitor (lock object + session) accepts every action -- evaluations only
+   while the lock is held and no expiry was reported since it was granted; the old lock is released only after an
+   expiry and with the connection back; a new lock is requested only after the release. *)
+Theorem C15_eval_only_with_lock : forall mi c0 gs tr,
+  spec_ok (mon0 c0) (snd (run (step_s mi) (init_state c0 gs) tr)) = true.
+Proof. exact eval_only_with_lock. Qed.
+Print Assumptions C15_eval_only_with_lock.
+
+(* ... in the words of the property: an evaluation is emitted only between a LockOk and the next Expired *)
+Theorem C15_eval_between_lockok_and_expired : forall mi c0 gs tr l1 e acts l2 g t,
+  snd (run (step_s mi) (init_state c0 gs) tr) = l1 ++ (e, acts) :: l2 -> In (Eval g t) acts ->
+  exists la lb, map fst l1 ++ [e] = la ++ LockOk :: lb /\ ~ In Expired lb.
+Proof. exact eval_between_lockok_and_expired. Qed.
+Print Assumptions C15_eval_between_lockok_and_expired.
+
+(* "it resumes only after the connection is back, the old lock has been released and the lock acquired again": in every
+   trace of the loop, if the expiry is reported while the lock is held (monitor state after the prefix l1), an evaluation
+   after it is preceded -- after that expiry -- by a SUCCESSFUL Unlock and, after that, a successful Lock.  (That the
+   Unlock is only attempted with the connection back is part of C15_eval_only_with_lock: the monitor accepts CallUnlock
+   only when expired and connected.) *)
+Theorem C15_resume_needs_unlock_and_lock : forall mi c0 gs tr l1 a0 l2 e acts l3 g t,
+  snd (run (step_s mi) (init_state c0 gs) tr) = l1 ++ (Expired, a0) :: l2 ++ (e, acts) :: l3 ->
+  m_lock (mon_run (mon0 c0) l1) = LHeld ->
+  In (Eval g t) acts ->
+  exists la lb lc, map fst l2 ++ [e] = la ++ UnlockOk :: lb ++ LockOk :: lc.
+Proof. exact resume_needs_unlock_and_lock. Qed.
+Print Assumptions C15_resume_needs_unlock_and_lock.
+
+(* a FAILING Unlock (the ephemeral node went with the expired session): the loop panics and nothing is ever issued again *)
+Theorem C15_unlock_error_stops_everything : forall mi s tr it,
+  ph s = Unlocking ->
+  In it (snd (run (step_s mi) s (UnlockErr :: tr))) -> it = (UnlockErr, [Panic]) \/ snd it = [].
+Proof. exact unlock_error_stops_everything. Qed.
+Print Assumptions C15_unlock_error_stops_everything.
+
+(* the session publisher (zookeeper coordinator): a StateExpired event closes the gate of an evaluating loop, which
+   then waits for the reconnect without touching the lock *)
+Theorem C15_zk_expiry_stops_evaluation : forall mi s c,
+  ph s = Evaluating ->
+  let r := feed (step_s mi) s (zk_session true ZkExpired c) in
+  ph (fst r) = WaitReconnect /\ doEval (fst r) = false /\ conn (fst r) = false /\ snd r = []
+  /\ snd (step_s mi (fst r) Wake) = [].
+Proof. exact zk_expiry_stops_evaluation. Qed.
+Print Assumptions C15_zk_expiry_stops_evaluation.
+
+(* pacing: two evaluations of one group entry are strictly more than minInterval apart, for every clock sequence --
+   for 0 <= minInterval <= max_pace_interval = 9223372036, i.e. exactly while minInterval * 10^9 < 2^63 (the Go code
+   forms  -time.Duration(minInterval) * time.Second  in int64; the model wraps as Go does, see C15_pacing_wrap_refuted) *)
+Theorem C15_pacing : forall mi c0 gs tr l1 e1 a1 l2 e2 a2 l3 g t1 t2,
+  0 <= mi <= max_pace_interval ->
+  snd (run (step_s mi) (init_state c0 gs) tr) = l1 ++ (e1, a1) :: l2 ++ (e2, a2) :: l3 ->
+  In (Eval g t1) a1 -> In (Eval g t2) a2 ->
+  forallb (keeps g) (map fst l2) = true ->
+  t2 - t1 > mi * ns_per_s.
+Proof. exact pacing. Qed.
+Print Assumptions C15_pacing.
+
+(* the second sentence of C15 end to end: every configuration with at least one module (intervals non-negative int64
+   below MaxInt64, the SHORTEST one at most max_pace_interval = 9223372036 s: shortest * 10^9 < 2^63), every trace of the loop that Configure set up, both machines *)
+Theorem C15_pacing_configured : forall mods i c0 gs tr l1 e1 a1 l2 e2 a2 l3 g t1 t2,
+  (forall m, In m mods -> 0 <= eff_interval m < max_int64) ->
+  shortest mods i -> i <= max_pace_interval ->
+  snd (run (step_s (configure_min mods)) (init_state c0 gs) tr) = l1 ++ (e1, a1) :: l2 ++ (e2, a2) :: l3 ->
+  In (Eval g t1) a1 -> In (Eval g t2) a2 ->
+  forallb (keeps g) (map fst l2) = true ->
+  t2 - t1 > i * ns_per_s.
+Proof. exact pacing_configured. Qed.
+Print Assumptions C15_pacing_configured.
+
+(* the pace is the shortest configured interval and not a longer one: with the gate open, an iteration of the request
+   loop evaluates every group whose last evaluation is more than that interval old *)
+Theorem C15_evaluated_when_due : forall mods i s now g le,
+  (forall m, In m mods -> eff_interval m < max_int64) ->
+  shortest mods i -> 0 <= i <= max_pace_interval ->
+  doEval s = true -> ph s <> Crashed ->
+  PositiveMap.find g (groups s) = Some le -> now - le > i * ns_per_s ->
+  In (Eval g now) (snd (step_s (configure_min mods) s (Tick now))).
+Proof. exact evaluated_when_due. Qed.
+Print Assumptions C15_evaluated_when_due.
+
+(* ===== C. The configuration step and the limits of the pacing theorems ================================ *)
 
 (* ---- "the shortest CONFIGURED notifier interval": minInterval is derived, by Coordinator.Configure, from the module
    configurations (mc_interval / mc_send / mc_threshold = the explicitly set interval / send-interval / threshold keys,
@@ -80,90 +177,43 @@ Theorem C15_min_interval_only_interval : forall mods mods',
 Proof. exact min_interval_only_interval. Qed.
 Print Assumptions C15_min_interval_only_interval.
 
-(* the second sentence of C15 end to end: every configuration with at least one module (intervals non-negative int64
-   below MaxInt64), every trace of the loop that Configure set up, both machines *)
-Theorem C15_pacing_configured : forall mods i c0 gs tr l1 e1 a1 l2 e2 a2 l3 g t1 t2,
-  (forall m, In m mods -> 0 <= eff_interval m < max_int64) ->
-  shortest mods i ->
-  snd (run (step_s (configure_min mods)) (init_state c0 gs) tr) = l1 ++ (e1, a1) :: l2 ++ (e2, a2) :: l3 ->
-  In (Eval g t1) a1 -> In (Eval g t2) a2 ->
-  forallb (keeps g) (map fst l2) = true ->
-  t2 - t1 > i * ns_per_s.
-Proof. exact pacing_configured. Qed.
-Print Assumptions C15_pacing_configured.
+(* the bound of the pacing theorems is exact *)
+Theorem C15_max_pace_interval_exact :
+  max_pace_interval * ns_per_s < two63 /\ two63 <= (max_pace_interval + 1) * ns_per_s.
+Proof. exact max_pace_interval_exact. Qed.
+Print Assumptions C15_max_pace_interval_exact.
 
-Theorem C15_pacing_configured_interleaved : forall mods i c0 gs tr l1 e1 a1 l2 e2 a2 l3 g t1 t2,
-  (forall m, In m mods -> 0 <= eff_interval m < max_int64) ->
-  shortest mods i ->
-  snd (run (step_i (configure_min mods)) (init_state c0 gs) tr) = l1 ++ (e1, a1) :: l2 ++ (e2, a2) :: l3 ->
-  In (Eval g t1) a1 -> In (Eval g t2) a2 ->
-  forallb (keeps g) (map fst l2) = true ->
-  t2 - t1 > i * ns_per_s.
-Proof. exact pacing_configured_interleaved. Qed.
-Print Assumptions C15_pacing_configured_interleaved.
+(* BEYOND the bound the second sentence of C15 is FALSE for the code: one module with interval 9223372037 s (a
+   non-negative int64 below MaxInt64 -- all that the earlier statement of C15_pacing_configured required): the Duration
+   wraps, sendBefore lies in the year 2316, every entry is due at every iteration; two evaluations 1 ms apart.
+   Replayed on the real code by the cfg probe (observation C15:interval-duration-overflow). *)
+Theorem C15_pacing_wrap_refuted :
+  (forall m, In m wrap_module -> 0 <= eff_interval m < max_int64) /\ shortest wrap_module 9223372037 /\
+  exists tr l1 e1 a1 l2 e2 a2 l3 g t1 t2,
+    snd (run (step_s (configure_min wrap_module)) (init_state true one_group) tr) = l1 ++ (e1, a1) :: l2 ++ (e2, a2) :: l3
+    /\ In (Eval g t1) a1 /\ In (Eval g t2) a2 /\ forallb (keeps g) (map fst l2) = true
+    /\ t2 - t1 = 1000000 /\ ~ (t2 - t1 > 9223372037 * ns_per_s).
+Proof. exact pacing_wrap_refuted. Qed.
+Print Assumptions C15_pacing_wrap_refuted.
 
-(* the pace is the shortest configured interval and not a longer one: with the gate open, an iteration of the request
-   loop evaluates every group whose last evaluation is more than that interval old *)
-Theorem C15_evaluated_when_due : forall mods i s now g le,
-  (forall m, In m mods -> eff_interval m < max_int64) ->
-  shortest mods i ->
-  doEval s = true -> ph s <> Crashed ->
-  PositiveMap.find g (groups s) = Some le -> now - le > i * ns_per_s ->
-  In (Eval g now) (snd (step_s (configure_min mods) s (Tick now))).
-Proof. exact evaluated_when_due. Qed.
-Print Assumptions C15_evaluated_when_due.
+Example C15_wrap_twice_example : send_before 18446744074 1700000000000000000 = 1700000000000000000 - 290448384.
+Proof. exact wrap_twice_example. Qed.
 
-(* non-vacuity: intervals 30 / 60 with send-intervals 300 / 5 *)
-Example C15_min_interval_example :
-  configure_min two_modules = 30 /\ configure_min (rev two_modules) = 30 /\ shortest two_modules 30
-  /\ configure_min [mkMod None (Some 5) None; mkMod (Some 61) None None] = 60
-  /\ configure_min [mkMod (Some 0) None None; mkMod None None None] = 0.
-Proof. exact min_interval_example. Qed.
+(* rand.Int63n(minInterval*1000) in processConsumerList: an ACCEPTED configuration whose first group-list refresh with
+   a new group kills the process -- interval 0, and every interval from 9223372036854776 on (the int64 product wraps
+   negative).  After the panic nothing is issued (no C15 violation); recorded as observation C15:refresh-int63n-panic. *)
+Example C15_refresh_panics_zero_interval :
+  step_s (configure_min [mkMod (Some 0) None None]) (init_state true (PositiveMap.empty Z)) (Refresh 1700000000000000000 [(1%positive, 0)])
+  = (mkState Crashed false true (PositiveMap.empty Z), [Panic]).
+Proof. exact refresh_panics_zero_interval. Qed.
 
-Example C15_pacing_configured_example :
-  (forall m, In m two_modules -> 0 <= eff_interval m < max_int64) /\
-  snd (run (step_s (configure_min two_modules)) (init_state true one_group)
-         [Wake; LockOk; Tick 31000000000; Tick 36000000000; Tick 61000000000; Tick 61000000001])
-  = [(Wake, [CallLock]); (LockOk, []); (Tick 31000000000, [Eval 1 31000000000]); (Tick 36000000000, []);
-     (Tick 61000000000, []); (Tick 61000000001, [Eval 1 61000000001])].
-Proof. exact pacing_configured_example. Qed.
+Example C15_refresh_panics_product_wraps :
+  configure_min [mkMod (Some 9223372036854776) None None] = 9223372036854776 /\
+  snd (step_s 9223372036854776 (init_state true (PositiveMap.empty Z)) (Refresh 1700000000000000000 [(1%positive, 0)])) = [Panic] /\
+  snd (step_s 9223372036854775 (init_state true (PositiveMap.empty Z)) (Refresh 1700000000000000000 [(1%positive, 0)])) = [].
+Proof. exact refresh_panics_product_wraps. Qed.
 
-(* the session publisher (zookeeper coordinator): a StateExpired event closes the gate of an evaluating loop, which
-   then waits for the reconnect without touching the lock *)
-Theorem C15_zk_expiry_stops_evaluation : forall mi s c,
-  ph s = Evaluating ->
-  let r := feed (step_s mi) s (zk_session true ZkExpired c) in
-  ph (fst r) = WaitReconnect /\ doEval (fst r) = false /\ conn (fst r) = false /\ snd r = []
-  /\ snd (step_s mi (fst r) Wake) = [].
-Proof. exact zk_expiry_stops_evaluation. Qed.
-Print Assumptions C15_zk_expiry_stops_evaluation.
-
-(* "it resumes only after the connection is back, the old lock has been released and the lock acquired again": in every
-   trace of the loop, if the expiry is reported while the lock is held (monitor state after the prefix l1), an evaluation
-   after it is preceded -- after that expiry -- by a SUCCESSFUL Unlock and, after that, a successful Lock.  (That the
-   Unlock is only attempted with the connection back is part of C15_eval_only_with_lock: the monitor accepts CallUnlock
-   only when expired and connected.) *)
-Theorem C15_resume_needs_unlock_and_lock : forall mi c0 gs tr l1 a0 l2 e acts l3 g t,
-  snd (run (step_s mi) (init_state c0 gs) tr) = l1 ++ (Expired, a0) :: l2 ++ (e, acts) :: l3 ->
-  m_lock (mon_run (mon0 c0) l1) = LHeld ->
-  In (Eval g t) acts ->
-  exists la lb lc, map fst l2 ++ [e] = la ++ UnlockOk :: lb ++ LockOk :: lc.
-Proof. exact resume_needs_unlock_and_lock. Qed.
-Print Assumptions C15_resume_needs_unlock_and_lock.
-
-(* a FAILING Unlock (the ephemeral node went with the expired session): the loop panics and nothing is ever issued again *)
-Theorem C15_unlock_error_stops_everything : forall mi s tr it,
-  ph s = Unlocking ->
-  In it (snd (run (step_s mi) s (UnlockErr :: tr))) -> it = (UnlockErr, [Panic]) \/ snd it = [].
-Proof. exact unlock_error_stops_everything. Qed.
-Print Assumptions C15_unlock_error_stops_everything.
-
-Example C15_resume_example :
-  snd (run (step_s 0) (init_state true one_group) [Wake; LockOk; Tick 5; Expired; Wake; UnlockErr; Wake; LockOk; Tick 9])
-  = [(Wake, [CallLock]); (LockOk, []); (Tick 5, [Eval 1 5]); (Expired, []); (Wake, [CallUnlock]); (UnlockErr, [Panic]);
-     (Wake, []); (LockOk, []); (Tick 9, [])]
-  /\ m_lock (mon_run (mon0 true) [(Wake, [CallLock]); (LockOk, []); (Tick 5, [Eval 1 5])]) = LHeld.
-Proof. exact resume_example. Qed.
+(* ===== D. Replies, re-locks, notifications ============================================================ *)
 
 (* LastEval is part of the shared group record.  An evaluator reply (responseLoop -> checkAndSendResponseToModules:
    incident opened / closed, notifications) is a no-op on everything the gate and the pacing depend on ... *)
@@ -185,6 +235,53 @@ Theorem C15_relock_keeps_pacing_run : forall mi tr s,
 Proof. exact relock_keeps_pacing_run. Qed.
 Print Assumptions C15_relock_keeps_pacing_run.
 
+(* "(and therefore notifications)".  causal lt: the evaluator replies to requests only -- every Response for a group is
+   preceded by an Eval action for that group (a property of the ENVIRONMENT, the evaluator subsystem).
+   WHAT HOLDS: every reply that reaches responseLoop, hence every notification, answers an evaluation request that was
+   ISSUED while this instance held the lock and no expiry had been reported since the grant. *)
+Theorem C15_notifications_only_from_locked_evaluations : forall mi c0 gs tr l1 g st acts l2,
+  causal (snd (run (step_s mi) (init_state c0 gs) tr)) ->
+  snd (run (step_s mi) (init_state c0 gs) tr) = l1 ++ (Response g st, acts) :: l2 ->
+  exists la e a lb t, l1 = la ++ (e, a) :: lb /\ In (Eval g t) a /\ fresh (mon_event (mon_run (mon0 c0) la) e).
+Proof. exact notifications_only_from_locked_evaluations. Qed.
+Print Assumptions C15_notifications_only_from_locked_evaluations.
+
+(* WHAT DOES NOT HOLD (the stronger reading "notifies only while it holds the lock"): responseLoop is not gated by the
+   lock; the reply to a request issued just before the expiry is processed, and notified, after it.
+   Witness  Wake; LockOk; Tick 5 (Eval 1 5); Expired; Response 1 3  -- replayed on the real code by the cfg probe
+   (events  a hold ... x  af err). *)
+Theorem C15_notifications_only_while_locked_refuted :
+  exists tr l1 g st acts l2,
+    causal (snd (run (step_s 0) (init_state true one_group) tr)) /\
+    snd (run (step_s 0) (init_state true one_group) tr) = l1 ++ (Response g st, acts) :: l2 /\
+    ~ fresh (mon_run (mon0 true) l1).
+Proof. exact notifications_only_while_locked_refuted. Qed.
+Print Assumptions C15_notifications_only_while_locked_refuted.
+
+(* ===== E. Non-vacuity ================================================================================= *)
+
+(* non-vacuity: intervals 30 / 60 with send-intervals 300 / 5 *)
+Example C15_min_interval_example :
+  configure_min two_modules = 30 /\ configure_min (rev two_modules) = 30 /\ shortest two_modules 30
+  /\ configure_min [mkMod None (Some 5) None; mkMod (Some 61) None None] = 60
+  /\ configure_min [mkMod (Some 0) None None; mkMod None None None] = 0.
+Proof. exact min_interval_example. Qed.
+
+Example C15_pacing_configured_example :
+  (forall m, In m two_modules -> 0 <= eff_interval m < max_int64) /\
+  snd (run (step_s (configure_min two_modules)) (init_state true one_group)
+         [Wake; LockOk; Tick 31000000000; Tick 36000000000; Tick 61000000000; Tick 61000000001])
+  = [(Wake, [CallLock]); (LockOk, []); (Tick 31000000000, [Eval 1 31000000000]); (Tick 36000000000, []);
+     (Tick 61000000000, []); (Tick 61000000001, [Eval 1 61000000001])].
+Proof. exact pacing_configured_example. Qed.
+
+Example C15_resume_example :
+  snd (run (step_s 0) (init_state true one_group) [Wake; LockOk; Tick 5; Expired; Wake; UnlockErr; Wake; LockOk; Tick 9])
+  = [(Wake, [CallLock]); (LockOk, []); (Tick 5, [Eval 1 5]); (Expired, []); (Wake, [CallUnlock]); (UnlockErr, [Panic]);
+     (Wake, []); (LockOk, []); (Tick 9, [])]
+  /\ m_lock (mon_run (mon0 true) [(Wake, [CallLock]); (LockOk, []); (Tick 5, [Eval 1 5])]) = LHeld.
+Proof. exact resume_example. Qed.
+
 Example C15_response_relock_example :
   snd (run (step_s 30) (init_state true one_group)
          [Wake; LockOk; Tick 100000000000; Response 1 3; Response 1 1; Tick 100001000000; Expired; Wake; UnlockOk; Wake; LockOk;
@@ -193,3 +290,4 @@ Example C15_response_relock_example :
      (Tick 100001000000, []); (Expired, []); (Wake, [CallUnlock]); (UnlockOk, []); (Wake, [CallLock]); (LockOk, []);
      (Tick 100002000000, []); (Tick 129999999999, []); (Tick 130000000001, [Eval 1 130000000001])].
 Proof. exact response_relock_example. Qed.
+
